@@ -806,3 +806,122 @@ Proof.
     + unfold good_histb, wf_histb. cbn. rewrite E2. reflexivity.
     + unfold good_histb, wf_histb. cbn. rewrite Rf, (proj2 (qleb_t tmin t') Hi). reflexivity.
 Qed.
+
+(* ---------------- _transform_to_node_history_ (SIS) ---------------- *)
+Definition rts_of (rec : list (node * list Q)) (u : node) : list Q :=
+  match assoc rec u with Some r => r | None => [] end.
+
+Definition sis_step (tmin : Q) (rec : list (node * list Q)) (l : list (node * history)) (nt : node * list Q) :=
+  match snd nt with
+  | [] => l
+  | its => hupd l (fst nt) (sis_hist tmin its (rts_of rec (fst nt)) (hget tmin l (fst nt)))
+  end.
+
+Lemma transform_SIS_fold tmin inf rec : transform_SIS tmin inf rec = fold_left (sis_step tmin rec) inf [].
+Proof. reflexivity. Qed.
+
+Lemma sis_fold tmin rec : forall l acc u, NoDup (map fst l) ->
+  assoc (fold_left (sis_step tmin rec) l acc) u =
+  match assoc l u with
+  | Some (t :: its) => Some (sis_hist tmin (t :: its) (rts_of rec u) (hget tmin acc u))
+  | _ => assoc acc u
+  end.
+Proof.
+  induction l as [|[k its] r IH]; intros acc u Hn; [reflexivity|].
+  cbn [map fst] in Hn. inversion Hn as [|? ? Hk Hr]; subst.
+  cbn [fold_left]. rewrite (IH _ u Hr). cbn [assoc]. unfold sis_step at 1 2 3. cbn [fst snd].
+  destruct (N.eqb k u) eqn:E.
+  - apply N.eqb_eq in E. subst k. rewrite (assoc_notin r u Hk). destruct its as [|t its]; [reflexivity|]. apply assoc_hupd_same.
+  - assert (k <> u) as Hku by (intro K; subst; rewrite N.eqb_refl in E; discriminate).
+    destruct its as [|t its]; [reflexivity|].
+    unfold hget. rewrite (assoc_hupd_other acc k u _ Hku). reflexivity.
+Qed.
+
+(* the history of node u is a function of its own infection and recovery times *)
+Lemma transform_SIS_spec tmin inf rec u : NoDup (map fst inf) ->
+  assoc (transform_SIS tmin inf rec) u =
+  match assoc inf u with
+  | Some (t :: its) => Some (sis_hist tmin (t :: its) (rts_of rec u) [(tmin, stS)])
+  | _ => None
+  end.
+Proof. intro H. rewrite transform_SIS_fold, (sis_fold tmin rec inf [] u H). reflexivity. Qed.
+
+(* appending a legal move at a later time keeps a history legal *)
+Definition last_entry (h : history) : Q * N := last h (0, 0%N).
+
+Lemma good_snoc ps mv tmin : forall h t s, good_histb ps mv tmin h = true ->
+  fst (last_entry h) <= t -> move_ok mv (snd (last_entry h)) s = true -> mem s ps = true ->
+  good_histb ps mv tmin (h ++ [(t, s)]) = true /\ last_entry (h ++ [(t, s)]) = (t, s).
+Proof.
+  intros h t s G Hle Hmv Hs. split; [|unfold last_entry; apply last_last].
+  destruct h as [|e0 r]; [discriminate|]. unfold good_histb, wf_histb in *. cbn [app].
+  apply andb_true_iff in G. destruct G as [G Gl]. apply andb_true_iff in G. destruct G as [G Gp].
+  apply andb_true_iff in G. destruct G as [G0 Gs]. rewrite G0. cbn [andb].
+  assert (A : sortedb ((e0 :: r) ++ [(t, s)]) = true /\ legalb mv ((e0 :: r) ++ [(t, s)]) = true).
+  { clear G0 Gp. revert e0 Gs Gl Hle Hmv. induction r as [|b r IH]; intros e0 Gs Gl Hle Hmv.
+    - unfold last_entry in *. cbn in Hle, Hmv. cbn. rewrite (proj2 (qleb_t _ _) Hle), Hmv. split; reflexivity.
+    - change (sortedb (e0 :: b :: r)) with (Qleb (fst e0) (fst b) && sortedb (b :: r)) in Gs.
+      change (legalb mv (e0 :: b :: r)) with (move_ok mv (snd e0) (snd b) && legalb mv (b :: r)) in Gl.
+      apply andb_true_iff in Gs. destruct Gs as [Gs1 Gs2]. apply andb_true_iff in Gl. destruct Gl as [Gl1 Gl2].
+      assert (L : last_entry (e0 :: b :: r) = last_entry (b :: r)) by reflexivity. rewrite L in Hle, Hmv.
+      destruct (IH b Gs2 Gl2 Hle Hmv) as [I1 I2].
+      change (sortedb ((e0 :: b :: r) ++ [(t, s)])) with (Qleb (fst e0) (fst b) && sortedb ((b :: r) ++ [(t, s)])).
+      change (legalb mv ((e0 :: b :: r) ++ [(t, s)])) with (move_ok mv (snd e0) (snd b) && legalb mv ((b :: r) ++ [(t, s)])).
+      rewrite Gs1, Gl1, I1, I2. split; reflexivity. }
+  destruct A as [A1 A2]. change (e0 :: r ++ [(t, s)]) with ((e0 :: r) ++ [(t, s)]). rewrite A1, A2.
+  rewrite forallb_app. cbn [andb]. rewrite andb_true_r. apply andb_true_iff. split; [exact Gp|]. cbn. rewrite Hs. reflexivity.
+Qed.
+
+(* alternating, time-ordered infection / recovery times: i1 <= r1 <= i2 <= r2 ...,
+   with at most the last recovery missing *)
+Fixpoint alternating (prev : Q) (its rts : list Q) : bool :=
+  match its with
+  | [] => match rts with [] => true | _ => false end
+  | t :: its' => Qleb prev t &&
+                 match rts with
+                 | [] => match its' with [] => true | _ => false end
+                 | r :: rts' => Qleb t r && alternating r its' rts'
+                 end
+  end.
+
+Definition sis_moves : list (N * N) := [(stS, stI); (stI, stS)].
+
+Lemma sis_hist_good tmin : forall its rts h,
+  good_histb [stS; stI] sis_moves tmin h = true -> snd (last_entry h) = stS ->
+  alternating (fst (last_entry h)) its rts = true ->
+  good_histb [stS; stI] sis_moves tmin (sis_hist tmin its rts h) = true.
+Proof.
+  induction its as [|t its IH]; intros rts h G Ls A; [exact G|].
+  cbn [alternating] in A. apply andb_true_iff in A. destruct A as [A1 A2]. apply qleb_t in A1.
+  cbn [sis_hist].
+  assert (G1 : good_histb [stS; stI] sis_moves tmin ((if Qeqb t tmin then [] else h) ++ [(t, stI)]) = true /\
+               last_entry ((if Qeqb t tmin then [] else h) ++ [(t, stI)]) = (t, stI)).
+  { destruct (Qeqb t tmin) eqn:E.
+    - split; [|reflexivity]. unfold good_histb, wf_histb. cbn. rewrite E. reflexivity.
+    - apply good_snoc; [exact G|exact A1|rewrite Ls; reflexivity|reflexivity]. }
+  destruct G1 as [G1 L1].
+  destruct rts as [|r rts].
+  - destruct its as [|t2 its]; [exact G1|discriminate].
+  - apply andb_true_iff in A2. destruct A2 as [A2 A3]. apply qleb_t in A2.
+    destruct (good_snoc [stS; stI] sis_moves tmin _ r stS G1) as [G2 L2].
+    + rewrite L1. exact A2.
+    + rewrite L1. reflexivity.
+    + reflexivity.
+    + apply IH; [exact G2|rewrite L2; reflexivity|rewrite L2; exact A3].
+Qed.
+
+(* every history _transform_to_node_history_ builds for SIS is legal when the node's
+   infection and recovery times alternate from tmin on *)
+Lemma transform_SIS_good tmin inf rec u h : NoDup (map fst inf) ->
+  (forall its, assoc inf u = Some its -> alternating tmin its (rts_of rec u) = true) ->
+  assoc (transform_SIS tmin inf rec) u = Some h ->
+  good_histb [stS; stI] sis_moves tmin h = true.
+Proof.
+  intros Hn Ha H. rewrite (transform_SIS_spec tmin inf rec u Hn) in H.
+  destruct (assoc inf u) as [[|t its]|] eqn:E; try discriminate.
+  assert (Hh : h = sis_hist tmin (t :: its) (rts_of rec u) [(tmin, stS)]) by congruence. rewrite Hh. clear H Hh.
+  apply (sis_hist_good tmin (t :: its) (rts_of rec u) [(tmin, stS)]).
+  - unfold good_histb, wf_histb. cbn. rewrite (proj2 (qeqb_t tmin tmin) (Qeq_refl _)). reflexivity.
+  - reflexivity.
+  - exact (Ha (t :: its) eq_refl).
+Qed.
